@@ -312,6 +312,7 @@ def run(ctx):
     rule_backref(ctx, repo)
     rule_find_or_add(ctx, repo)
     rule_link_errors(ctx, repo)
-    from rules import c19_lookup, c19_get
+    from rules import c19_lookup, c19_get, c19_findidx
+    c19_findidx.run_rule(ctx, repo)
     c19_lookup.run_rule(ctx, repo)
     c19_get.run_rule(ctx, repo)
